@@ -11,6 +11,14 @@ BASELINE = ("cd /repo && /venv/bin/python -m pytest -ra -q -p no:cacheprovider -
 
 # pid -> (category, text, design_ref, level_note, technique)
 CLAIMED = {
+ "C11": ("model_checking",
+         "spec/Regex.tla: Brzozowski derivatives and an independent direct-membership semantics, checked by TLC to agree on every "
+         "expression of the bounded domain; TLC computes for every (expression, string) the longest viable prefix and acceptance; "
+         "cpppo.regex and regex_bytes machines built from the emitted text are fed every string whole / symbol-at-a-time / at "
+         "sampled splits and must consume, store and accept exactly that (NonTerminal otherwise).",
+         "5/C11", "exhaustive for expressions of size <= 2 (+ cat/alt of atoms; size 3 in thorough) over a 5-symbol alphabet with 2- and "
+         "3-octet symbols and strings of length <= 3 (4); two known findings on byte machines (F10 exact, F11 by class)",
+         "TLA+ derivative oracle evaluated by TLC over all small expressions x strings; machines built by cpppo replayed against it"),
  "C20": ("model_checking",
          "spec/Tnet.tla defines Dump and Parse over a value ADT (arbitrary-precision integers, floats as text, bytes, UTF-8 text, "
          "booleans, null, lists, dictionaries); TLC checks Parse(Dump(v)) = (v, <<>>) and the same in front of every tail for every "
